@@ -93,6 +93,9 @@ def _source_cycles(req: dict) -> dict:
     from universe import v2 as U
 
     idx = {SOURCE_OPTIMIZED_SERIALIZATION_KEY: True}
+    if req.get("sub_clear"):
+        # some earlier code cleared "the registry" through a subclass: in pyoak that call is inert
+        MemoryTextSource.clear_registry()
     docs = []
     for b in req["batches"]:  # the producers, one after the other, each starting from an empty table
         Source.clear_registry()
